@@ -340,6 +340,16 @@ class Path(object):
             return False
         return self._check(z3.Not(c)) == 'unsat'
 
+    def is_valid_full(self, cond):
+        """pc => cond, decided in the full theories (sequences, sets) when the arithmetic
+        abstraction cannot: for trace predicates whose clause needs more than arithmetic."""
+        if self.is_valid(cond):
+            return True
+        if isinstance(cond, bool):
+            return cond
+        verdict, _, _ = solve.check_forked(self.pc + [z3.Not(cond)], None, hard_timeout=30)
+        return verdict == 'unsat'
+
     def branch(self, cond):
         """Decide a symbolic condition; forks the exploration when both
         outcomes are feasible."""
@@ -536,7 +546,7 @@ class Path(object):
         out = {}
         for k, v in self.inputs.items():
             try:
-                out[k] = concretize(v, model, {})
+                out[k] = concretize(v, model, {'__initial_lists__': self.ghost.get('initial_lists', {})})
             except Exception as e:      # never let reporting break a verdict
                 out[k] = "<unconcretizable: %s>" % e
         out['__decisions__'] = ''.join(d if len(d) == 1 else '[%s]' % d for d in self.decisions)
@@ -584,7 +594,7 @@ class Path(object):
     def split_sym(self, seqterm, n):
         """Ghost prefix/suffix split with symbolic n (0 <= n <= len)."""
         ns = z3.simplify(n)
-        key = (seqterm.get_id(), ns.get_id())
+        key = ('sym', seqterm.get_id(), ns.get_id())      # never the key of a concrete split (term ids are ints too)
         self._keep.extend([seqterm, ns])
         if key in self.splits:
             return self.splits[key]
@@ -637,6 +647,10 @@ def concretize(v, model, memo):
         for k, f in src.items():
             d[k] = concretize(f, model, memo)
         return d
+    if isinstance(v, list):
+        ini = memo.get('__initial_lists__', {}).get(id(v))
+        if ini is not None and ini[0] is v:
+            v = ini[1]
     if isinstance(v, (list, tuple)):
         return type(v)(concretize(x, model, memo) for x in v)
     if isinstance(v, dict):
@@ -648,10 +662,12 @@ def concretize(v, model, memo):
             return memo[id(v)]
         d = {}
         memo[id(v)] = d
-        for kid, opt in v.memo.items():
+        im = getattr(v, 'initial_memo', None)
+        entries, keys_ = (v.memo, v.keys_) if im is None else im
+        for kid, opt in entries.items():
             if z3.is_true(model.eval(opt.isnone, model_completion=True)):
                 continue
-            k = concretize(v.keys_[kid], model, memo)
+            k = concretize(keys_[kid], model, memo)
             try:
                 hash(k)
             except TypeError:
@@ -756,7 +772,9 @@ class Interp(object):
 
     # ---------------------------------------------------------- helpers
     def raise_py(self, cls, *args):
-        raise Raised(ExcVal(cls, args))
+        e = ExcVal(cls, args)
+        e.where = getattr(self, 'cur_stmt', None)      # (function, line) of the statement being executed
+        raise Raised(e)
 
     def truth(self, v):
         """Python truthiness -> bool | z3 Bool"""
@@ -785,6 +803,9 @@ class Interp(object):
             return (n > 0) if not isinstance(n, int) else n > 0
         if isinstance(v, SDict):
             return z3.Not(v.empty)
+        from . import symset as _ss
+        if isinstance(v, _ss.SSet):
+            return _ss.truth(v)
         if isinstance(v, Obj):
             # objects are truthy unless the class defines __bool__/__len__
             if self._class_attr(v.cls, '__bool__') is not None or \
@@ -919,7 +940,11 @@ class Interp(object):
         return list(self._elts(node.elts, env))
 
     def e_Set(self, node, env):
-        return set(self._elts(node.elts, env))
+        els = self._elts(node.elts, env)
+        if any(isinstance(x, SSeq) for x in els):
+            from . import symset
+            return symset.lift(self, els)
+        return set(els)
 
     def _elts(self, elts, env):
         out = []
@@ -1075,8 +1100,8 @@ class Interp(object):
             e2.old, e2.spec = env.old, env.spec
             itv = self.resolve_opt(self.eval(g.iter, e2))
             if isinstance(itv, SList) and not isinstance(itv.length, int):
-                if len(node.generators) != 1 or g.ifs:
-                    raise OutOfFragment("comprehension over a symbolic list with several generators / a filter")
+                if len(node.generators) != 1:
+                    raise OutOfFragment("comprehension over a symbolic list with several generators")
                 raise _SymComp(itv, g, loc)
             for item in self.iterate_concrete(itv):
                 loc2 = dict(loc)
@@ -1104,9 +1129,22 @@ class Interp(object):
             e3 = Env(loc2, env.globals, env.cls_ctx, env.fn_name, env.ex)
             e3.old, e3.spec = env.old, env.spec
             I2.assign(g.target, x, e3)
+            for cnd in g.ifs:
+                # a member that passes the filter
+                t = I2.truth(I2.eval(cnd, e3))
+                if t is False:
+                    raise Infeasible()
+                if t is not True:
+                    I2.path.assume(t)
             return x, I2.eval(node.elt, e3)
         params = {'elt': ast.unparse(node.elt), 'target': ast.unparse(g.target)}
         n = base.length
+        if g.ifs:
+            params['ifs'] = [ast.unparse(c) for c in g.ifs]
+            m = fresh("n_filtered")
+            self.path.assume(z3.And(m >= 0, m <= n))
+            t = LTerm('map', base, params, base.name + ".filter", m, lambda I2, tag: image(I2, tag)[1], base.taint)
+            return t
         if self.path.branch(n > 0):
             x, y = image(self, "c%d" % len(base.members))
             params['sample_in'], params['sample_out'] = x, y
@@ -1234,7 +1272,7 @@ class Interp(object):
             if name == 'name' and len(list(v.cls)) > 12:
                 return Opaque('str', 'enum.name', facts={'nonempty'})
             return getattr(self.resolve_enum(v), name)
-        if isinstance(v, (SSeq, SInt, SBool, MutBytes, SList, SDict)) or \
+        if isinstance(v, (SSeq, SInt, SBool, MutBytes, SList, SDict)) or type(v).__name__ == 'SSet' or \
                 (isinstance(v, (bytes, str, list, dict, tuple, set, int, bytearray, frozenset))
                  and not isinstance(v, enum.Enum)):
             return self.models.builtin_method(self, v, name)
@@ -1412,6 +1450,8 @@ class Interp(object):
         if m is None:
             raise OutOfFragment("statement %s at %s:%s" % (type(node).__name__, env.fn_name,
                                                            getattr(node, 'lineno', '?')))
+        if not getattr(env, 'spec', False):
+            self.cur_stmt = (env.fn_name, getattr(node, 'lineno', None))
         return m(node, env)
 
     def s_Expr(self, node, env):
@@ -1605,6 +1645,9 @@ class Interp(object):
     def s_For(self, node, env):
         k, spec, qn = self._loop_spec(env, node)
         it = self.resolve_opt(self.eval(node.iter, env))
+        from . import symset as _ss
+        if isinstance(it, _ss.SSet):
+            it = _ss.as_slist(self, it)
         concrete_items = None
         try:
             concrete_items = self.iterate_concrete(it)
@@ -1612,7 +1655,22 @@ class Interp(object):
             concrete_items = None
         if concrete_items is not None:
             broke = False
-            for item in concrete_items:
+            # Python's iteration protocol on containers the body may change: a list is read by
+            # index against its current length (elements removed or added during the loop shift
+            # what is visited); a dict or set whose size changed raises RuntimeError at the next step
+            live_list = it if isinstance(it, list) else None
+            sized = it if isinstance(it, (dict, set)) else None
+            size0 = len(sized) if sized is not None else None
+            i = 0
+            while True:
+                if sized is not None and len(sized) != size0:
+                    self.raise_py(RuntimeError, "%s changed size during iteration"
+                                  % ('dictionary' if isinstance(sized, dict) else 'Set'))
+                src = live_list if live_list is not None else concrete_items
+                if i >= len(src):
+                    break
+                item = src[i]
+                i += 1
                 self.assign(node.target, item, env)
                 try:
                     self.exec_block(node.body, env)
